@@ -1013,4 +1013,79 @@ example : PhasesOK 3 exO exPhases ⟨[0, 5, 15], []⟩ := by
     rw [e]
     exact T_C13_ex_rest
 
+/-! ### round 6d: `add_clamp` between two calls, unconditionally for exact constructors -/
+
+/-- **A clamp added between two `optimize()` calls.** Configuration `cfg` well-formed, state at rest, grid quality
+    `q0`. Junction `idx` (inside the grid) has no clamp, leads no link and follows no clamped leader; `newPos p` is the
+    position of that vertex *before the first call* (what `FreeClamp(v)`, `PlaneClamp(v, v, n)`, `LineClamp(v, v, v + d)`
+    deliver). After the first call the clamp is added — as number `k` of `GridBase.clamps`, whatever `k`: the clamps on
+    higher junctions are renumbered — and `optimize()` is called again (other schedule, criterion, limit): the second
+    call is entered in a rest state of a well-formed configuration (so `PhasesOK` needs no hypothesis), the final
+    state is at rest and the final grid quality is defined and `≤ q0`. -/
+theorem T_C13_noworse_add_clamp [LinearOrder Q] [LinearOrder S] {cfg : Cfg P Prm} {n : Nat} (hwf : WF cfg n)
+    (o : Oracles P Q) (c1 c2 : Call Prm Q S) (st : St P Prm) (hr : Rest cfg n st) (q0 : Q) (hq : o.gq st.pts = some q0)
+    (k idx : Nat) (newPos : Prm → P) (p : Prm) (hk : k ≤ cfg.clampIdx.length) (hi : idx < n)
+    (hnew : idx ∉ cfg.clampIdx) (hlead : ∀ l ∈ cfg.links, l.leader ≠ idx)
+    (hfol : ∀ l ∈ cfg.links, l.leader ∈ cfg.clampIdx → l.follower ≠ idx) (hon : st.pts[idx]? = some (newPos p)) :
+    let st1 := (optimize cfg o c1.conv c1.maxIter c1.sched st).st
+    let cfg' := cfg.addClampAt k idx newPos
+    let st2 := (optimize cfg' o c2.conv c2.maxIter c2.sched (st1.addPrmAt k p)).st
+    WF cfg' n ∧ Rest cfg' n (st1.addPrmAt k p) ∧ Rest cfg' n st2 ∧ ∃ q2, o.gq st2.pts = some q2 ∧ q2 ≤ q0 := by
+  intro st1 cfg' st2
+  have hr1 : Rest cfg n st1 := T_C13_on hwf o c1.conv c1.maxIter c1.sched st hr
+  obtain ⟨q1, hq1, hle1⟩ := T_C13_noworse hwf o c1.conv c1.maxIter c1.sched st hr q0 hq
+  have hnm : ¬ movable cfg idx := by
+    rintro (h | ⟨l, hl, hle, hf⟩)
+    · exact hnew h
+    · exact hfol l hl hle hf
+  have hon1 : st1.pts[idx]? = some (newPos p) := by
+    rw [(T_C13_frame cfg o c1.conv c1.maxIter c1.sched st).2 idx hnm]; exact hon
+  have hwf' : WF cfg' n := wf_addClampAt hwf k idx newPos hi hnew hlead hfol
+  have hr' : Rest cfg' n (st1.addPrmAt k p) :=
+    rest_addClampAt hr1 k idx newPos p hk hon1 (fun l hl => absurd (mem_linksOf.mp hl).2 (hlead l (mem_linksOf.mp hl).1))
+  obtain ⟨q2, hq2, hle2⟩ := T_C13_noworse hwf' o c2.conv c2.maxIter c2.sched _ hr' q1 hq1
+  exact ⟨hwf', hr', T_C13_on hwf' o c2.conv c2.maxIter c2.sched _ hr', q2, hq2, le_trans hle2 hle1⟩
+
+/-- non-vacuity: `exCfg0` plus a link-free variant: junction 0 of the instance gets a clamp after the first call.
+    (`exCfg`: clamp on junction 1 leading junction 2; junction 0 is free, leads nothing, follows nothing.) -/
+example : exCfg.clampIdx.length = 1 ∧ (0 : Nat) ≤ exCfg.clampIdx.length ∧ (0 : Nat) < 3 ∧ 0 ∉ exCfg.clampIdx ∧
+    (∀ l ∈ exCfg.links, l.leader ≠ 0) ∧ (∀ l ∈ exCfg.links, l.leader ∈ exCfg.clampIdx → l.follower ≠ 0) ∧
+    exSt0.pts[0]? = some ((fun (q : Int) => q) 0) ∧
+    (exCfg.addClampAt 0 0 (fun q => q)).clampIdx = [0, 1] ∧
+    (optimize (exCfg.addClampAt 0 0 (fun q => q)) exO exConv 1 (fun _ => ⟨fun _ => ([], 0), fun _ _ => ([1, 0], false)⟩)
+      ((optimize exCfg exO exConv 2 exSched exSt0).st.addPrmAt 0 0)).st.prm = [0, 2] := by decide
+
+/-! ### round 6d: an exception other than `ValueError` raised by a clamp function inside the minimiser -/
+
+/-- **Mesh / sketch after a call.** `backport` is the last statement of `optimize`: when an exception propagated the
+    vertices are exactly the ones before the call, otherwise exactly the optimiser's final points. -/
+theorem T_C13_abort_mesh (verts final : List P) (h : verts.length = final.length) :
+    afterCall verts final true = verts ∧ afterCall verts final false = final :=
+  ⟨rfl, T_C13_backport_mesh verts final h⟩
+
+/-- **The grid the exception leaves behind** (raised in evaluation `m` of the `s`-th `optimize_clamp` of iteration
+    `it`): its points are those of a rest state — every clamped vertex on its clamp function at the parameters that were
+    last *applied*, every follower on its link — only the raising clamp holds parameters it never applied; points
+    that are neither clamped nor followers of a clamped leader are as before the call. (The quality may be worse than
+    before: nothing is rolled back. The mesh does not see it, `T_C13_abort_mesh`.) -/
+theorem T_C13_abort_state [LinearOrder Q] [LinearOrder S] {cfg : Cfg P Prm} {n : Nat} (hwf : WF cfg n) (o : Oracles P Q)
+    (conv : List (Q × Q) → Bool) (sched : Nat → IterSched Prm S) (st : St P Prm) (hr : Rest cfg n st) (it s m : Nat) :
+    (optimizeAbort cfg o conv sched st it s m).1.pts = (optimizeAbortPre cfg o conv sched st it s m).st.pts ∧
+      Rest cfg n (optimizeAbortPre cfg o conv sched st it s m).st ∧
+      (optimizeAbort cfg o conv sched st it s m).1.pts.length = st.pts.length ∧
+      ∀ k, ¬ movable cfg k → (optimizeAbort cfg o conv sched st it s m).1.pts[k]? = st.pts[k]? := by
+  have h1 := optimizeAbortPre_pres (preserved_cons (o := o) hwf (fun _ => True)) conv sched
+    (fun _ => ⟨fun _ _ _ => trivial, fun _ _ _ _ => trivial⟩) st ⟨hr.1, hr.2.1, fun j _ => hr.2.2 j⟩ it s m
+  have h2 := optimizeAbortPre_pres (preserved_frame (cfg := cfg) (o := o) st) conv sched
+    (fun _ => ⟨fun _ _ _ => trivial, fun _ _ _ _ => trivial⟩) st ⟨rfl, fun _ _ => rfl⟩ it s m
+  exact ⟨rfl, ⟨h1.1, h1.2.1, fun j => h1.2.2 j trivial⟩, h2.1, h2.2⟩
+
+/-- on the instance: the clamp function raises in the third evaluation of the first `optimize_clamp` (parameters 2):
+    the grid stays at the second evaluation (vertex at 3, follower at 13, quality 1 instead of 9 → 0), the clamp
+    holds the 2 it never applied -/
+example : (optimizeAbort exCfg exO exConv exSched exSt0 0 0 2).1.pts = [0, 3, 13] ∧
+    (optimizeAbort exCfg exO exConv exSched exSt0 0 0 2).1.prm = [2] ∧
+    (optimizeAbort exCfg exO exConv exSched exSt0 0 0 2).2 = true ∧
+    afterCall [0, 5, 15] (optimizeAbort exCfg exO exConv exSched exSt0 0 0 2).1.pts true = [0, 5, 15] := by decide
+
 end CBV.C13
